@@ -112,11 +112,60 @@ Proof.
   - exfalso. specialize (A eq_refl eq_refl). discriminate.
 Qed.
 
+Lemma unbound_evictsb_spec l : unbound_evictsb l = true <-> unbound_evicts l.
+Proof.
+  unfold unbound_evictsb, unbound_evicts. rewrite forallb_forall. split.
+  - intros H e I Ev. specialize (H e I). rewrite Ev in H. cbn in H.
+    apply orb_true_iff in H. destruct H as [H|H]; apply Z.eqb_eq in H; auto.
+  - intros H e I. destruct (is_evict e) eqn:Ev; [|reflexivity]. cbn.
+    destruct (H e I Ev) as [E|E]; rewrite E; rewrite ?Z.eqb_refl, ?orb_true_r; reflexivity.
+Qed.
+
+Lemma evict_unboundb_spec ops : forall obs own,
+  evict_unboundb own ops obs = true <-> evict_unbound own ops obs.
+Proof.
+  induction ops as [|o t IH]; intros obs own; cbn; [tauto|].
+  destruct obs as [|ob tb]; [tauto|].
+  rewrite andb_true_iff, IH, orb_true_iff, negb_true_iff, unbound_evictsb_spec.
+  destruct own; split; intros (A & B); split; auto.
+  - destruct A as [A|A]; [discriminate|auto].
+  - intros; discriminate.
+Qed.
+
+Lemma after_terminal_okb_spec ph e : after_terminal_okb ph e = true <-> after_terminal_ok ph e.
+Proof.
+  unfold after_terminal_okb, after_terminal_ok. destruct (ek e); try rewrite Z.eqb_eq; split; auto; discriminate.
+Qed.
+
+Lemma wabsb_spec l : forall ph, wabsb ph l = true <-> wabs ph l.
+Proof.
+  induction l as [|e t IH]; intros ph; cbn; [tauto|].
+  rewrite andb_true_iff, IH, orb_true_iff, negb_true_iff, after_terminal_okb_spec.
+  destruct (terminal ph); split; intros (A & B); split; auto.
+  - destruct A as [A|A]; [discriminate|auto].
+  - intros; discriminate.
+Qed.
+
+Lemma write_absorbingb_spec obs : forall prev, write_absorbingb prev obs = true <-> write_absorbing prev obs.
+Proof.
+  induction obs as [|o t IH]; intros prev; cbn; [tauto|].
+  rewrite andb_true_iff, IH, wabsb_spec. tauto.
+Qed.
+
+Lemma unbound_guardb_spec j0 ops obs :
+  direct j0 || evict_unboundb false ops obs = true <-> (direct j0 = false -> evict_unbound false ops obs).
+Proof.
+  rewrite orb_true_iff, evict_unboundb_spec. destruct (direct j0); split; auto.
+  - intros _ D; discriminate.
+  - intros [D|H]; [discriminate|auto].
+Qed.
+
 Theorem prop_code_spec j0 ops obs : prop_code j0 ops obs = 0 <-> C17_holds j0 ops obs.
 Proof.
   unfold prop_code, C17_holds, C17_core.
   rewrite <- evict_guardb_spec, <- absorbingb_spec, <- timeout_deletesb_spec,
-          <- at_most_onceb_spec, <- frameb_spec, <- evict_other_nodeb_spec, <- timeout_cleansb_spec.
+          <- at_most_onceb_spec, <- frameb_spec, <- evict_other_nodeb_spec, <- timeout_cleansb_spec,
+          <- unbound_guardb_spec, <- write_absorbingb_spec.
   destruct (Nat.eqb (length obs) (length ops)) eqn:L; cbn.
   2: { apply Nat.eqb_neq in L. split; [discriminate|tauto]. }
   apply Nat.eqb_eq in L.
@@ -125,7 +174,10 @@ Proof.
   destruct (timeout_deletesb j0 obs); cbn; [|split; [discriminate|intros ((_&_&_&?&_)&_); discriminate]].
   destruct (at_most_onceb ops obs); cbn; [|split; [discriminate|intros ((_&_&_&_&?&_)&_); discriminate]].
   destruct (frameb j0 ops obs); cbn; [|split; [discriminate|intros ((_&_&_&_&_&?&_)&_); discriminate]].
-  destruct (evict_other_nodeb j0 obs); cbn; [|split; [discriminate|intros ((_&_&_&_&_&_&?)&_); discriminate]].
+  destruct (evict_other_nodeb j0 obs); cbn; [|split; [discriminate|intros ((_&_&_&_&_&_&?&_)&_); discriminate]].
+  destruct (direct j0 || evict_unboundb false ops obs); cbn;
+    [|split; [discriminate|intros ((_&_&_&_&_&_&_&?&_)&_); discriminate]].
+  destruct (write_absorbingb j0 obs); cbn; [|split; [discriminate|intros ((_&_&_&_&_&_&_&_&?)&_); discriminate]].
   destruct (timeout_cleansb false j0 ops obs); cbn; [|split; [discriminate|intros (_&?); discriminate]].
   tauto.
 Qed.
@@ -136,6 +188,8 @@ Lemma prop_code_tail j0 ops obs :
   at_most_once ops obs -> frame j0 ops obs ->
   prop_code j0 ops obs =
     if negb (evict_other_nodeb j0 obs) then 7
+    else if negb (direct j0 || evict_unboundb false ops obs) then 10
+    else if negb (write_absorbingb j0 obs) then 11
     else if negb (timeout_cleansb false j0 ops obs) then 8 else 0.
 Proof.
   intros L G A T O F. unfold prop_code.
